@@ -6,6 +6,7 @@ From Coq Require Import List NArith ZArith Bool.
 From Coq Require Export String.
 From LW Require Import Base.Outcome.
 From LW Require Export Band.Types.
+From LW Require Export Band.Lookup.
 From LW Require Import Band.Lookup Band.Regional Band.Rx1Spec.
 From LWGen Require Import BandGen.
 Import ListNotations.
@@ -31,11 +32,13 @@ Inductive case :=
    valid index), GetRX1ChannelIndexForUplinkChannelIndex(ch),
    GetRX1FrequencyForUplinkFrequency(that frequency) *)
 | CRx1Ch (i : N) (ch : Z) (o_up : option Z) (o_idx o_freq : outcome Z)
-(* after the AddChannel history [ops] (errs: which calls returned an error) the band has [n]
-   uplink channels; uplink channel [ch] has frequency [f];
+(* after the history [ops] of AddChannel / DisableUplinkChannelIndex / EnableUplinkChannelIndex
+   calls on a fresh object (errs: which calls returned an error; no lookup was made on the object
+   before the first call of the history) the band has [n] uplink channels; uplink channel [ch]
+   (enabled or not) has frequency [f];
    o_idx = GetRX1ChannelIndexForUplinkChannelIndex(ch), o_down = GetDownlinkChannel(that
    index).Frequency (Err when o_idx is not a value), o_freq = GetRX1FrequencyForUplinkFrequency(f) *)
-| CRx1ChHist (i : N) (ops : list (Z * Z * Z)) (errs : list bool) (n ch f : Z) (o_idx o_down o_freq : outcome Z)
+| CRx1ChHist (i : N) (ops : list chan_op) (errs : list bool) (n ch f : Z) (o_idx o_down o_freq : outcome Z)
 (* GetRX1FrequencyForUplinkFrequency on an arbitrary frequency *)
 | CRx1Freq (i : N) (f : Z) (o : outcome Z)
 (* GetPingSlotFrequency(devaddr, beacon time in ns) *)
@@ -76,7 +79,7 @@ Definition check (c : case) : N :=
     end
   | CRx1ChHist i ops errs n ch f o_idx o_down o_freq =>
     let cfg := cfg_at i in
-    let r := add_channels (c_tab cfg) ops in
+    let r := apply_ops (c_tab cfg) ops in
     let t' := fst r in
     let cfg' := with_tables cfg t' in
     code (list_eqb Bool.eqb (snd r) errs && (zlen (t_up t') =? n)
